@@ -1,0 +1,23 @@
+//go:build verif
+
+package transport_controller
+
+import "github.com/aperturerobotics/bifrost/link"
+
+// VerifLinks returns a snapshot of both link tables (simulation builds only).
+// The caller must not hold the controller lock.
+func (c *Controller) VerifLinks() (byUUID map[uint64]link.Link, byPeer map[string][]link.Link) {
+	byUUID = make(map[uint64]link.Link)
+	byPeer = make(map[string][]link.Link)
+	c.bcast.HoldLock(func(broadcast func(), getWaitCh func() <-chan struct{}) {
+		for k, el := range c.links {
+			byUUID[k] = el.lnk
+		}
+		for p, els := range c.linksByPeerID {
+			for _, el := range els {
+				byPeer[p.String()] = append(byPeer[p.String()], el.lnk)
+			}
+		}
+	})
+	return
+}
